@@ -3,7 +3,7 @@
      CRCheck  : notify.Retrier.Check on (retry codes, status)      -> (retry, failed)
    check_case: the model on the same input gives the observed output.
    prop_case : executable form of the property evaluated on the model's output. *)
-From AM Require Export Base.Prelude Model.TemplateData Model.Utf8 Model.Truncate.
+From AM Require Export Base.Prelude Model.TemplateData Model.Retry Model.Utf8 Model.Truncate.
 
 Global Instance res_eq_dec {A} `{EqDecision A} : EqDecision (res A).
 Proof. solve_decision. Defined.
@@ -18,13 +18,25 @@ Inductive case :=
 | CTrunc (in_bytes : bool) (s : string) (n : Z) (obs : res (string * bool))
 | CRCheck (codes : list Z) (code : Z) (obs : bool * bool)
 | CData (now : Z) (group : kv) (alerts : list alert) (obs : data)
-| CWebhook (max now : Z) (group : kv) (alerts : list alert) (obs : data * Z).
+| CWebhook (max now : Z) (group : kv) (alerts : list alert) (obs : data * Z)
+(* RetryStage.Exec: inputs, then the observed Notify calls (instant, outcome) — their instants are the tick
+   oracle —, the alerts handed to Notify, the error class, the alerts returned, the return instant *)
+| CRetry (send_resolved : bool) (firing_ctx : option nat) (alerts : list alert) (start dl : Z)
+         (script : list outcome) (obs_attempts : list (Z * outcome)) (obs_sent : list alert)
+         (obs_err : option rerr) (obs_out : list alert) (obs_end : Z)
+(* the receiver pipeline: per integration its configuration (ticks = observed Notify instants), the observed
+   events of each integration in order, whether the flush failed, and whether the real nflog holds an entry
+   written by this flush for each integration *)
+| CFanout (alerts : list alert) (start dl : Z) (gs : list integ)
+          (obs_events : list (list event)) (obs_failed : bool) (obs_logged : list bool).
 
 Inductive shown :=
 | STrunc (o : res (string * bool))
 | SRCheck (o : bool * bool)
 | SData (d : data)
-| SWebhook (d : data * Z).
+| SWebhook (d : data * Z)
+| SRetry (r : retry_result)
+| SFanout (evs : list (list event)) (failed : bool) (logged : list bool).
 
 (* ---- truncation ---- *)
 Definition trunc_model (in_bytes : bool) (s : string) (n : Z) : res (list Z * bool) :=
@@ -78,12 +90,72 @@ Definition data_prop (now : Z) (alerts : list alert) (d : data) : bool :=
   eqb (d_firing d) (existsb t_firing (d_alerts d)) &&
   common_ok a_labels alerts (d_common_labels d) && common_ok a_annots alerts (d_common_annots d).
 
+(* ---- retry ---- *)
+Global Instance retry_result_eq_dec : EqDecision retry_result.
+Proof. solve_decision. Defined.
+
+Definition retry_model sr fc alerts start dl script (obs_attempts : list (Z * outcome)) : retry_result :=
+  retry_exec sr fc alerts start dl (map fst obs_attempts) script.
+
+Fixpoint all_but_last_recov (l : list (Z * outcome)) : bool :=
+  match l with
+  | [] | [_] => true
+  | (_, o) :: r => beq o ORecov && all_but_last_recov r
+  end.
+Definition retry_prop (sr : bool) (fc : option nat) (alerts : list alert) (start dl : Z) (r : retry_result) : bool :=
+  forallb (fun p => (start <=? fst p) && (fst p <=? dl)) (r_attempts r) &&
+  all_but_last_recov (r_attempts r) &&
+  (match last (r_attempts r) with
+   | Some (_, OOk) => beq (r_err r) None && beq (r_out r) alerts
+   | Some (_, OUnrecov) | Some (_, OHang false) => beq (r_err r) (Some EUnrecov)
+   | Some (_, _) => match r_err r with Some (ECanceled _) => true | _ => false end
+   | None => match r_err r with
+             | None => negb sr && beq (r_out r) alerts
+             | Some EUnrecov => false
+             | Some _ => true
+             end
+   end) &&
+  (match r_attempts r with
+   | [] => true
+   | _ => beq (r_sent r) (if sr then alerts else filter (fun a => firing_at start a) alerts)
+   end).
+
+(* ---- fanout ---- *)
+Definition logged_of (g : integ) (c : chain_result) : bool :=
+  existsb (fun e => match e with EvLog _ _ => true | _ => false end) (c_events c) && g_log_ok g.
+Definition fanout_model alerts start dl gs : list (list event) * bool * list bool :=
+  let rs := fanout gs alerts start dl in
+  (map c_events rs, fanout_failed rs, zip_with logged_of gs rs).
+
+(* a Log is the last event of its chain and is preceded by a successful Notify of the same integration,
+   or it is the bookkeeping write of a send_resolved=false integration with no firing alert *)
+Fixpoint log_after_success (prev : option event) (evs : list event) : bool :=
+  match evs with
+  | [] => true
+  | EvLog i _ :: r =>
+    beq r [] && match prev with Some (EvNotify j _ OOk) => beq i j | None => true | _ => false end
+  | e :: r => log_after_success (Some e) r
+  end.
+Fixpoint indexed_from {A} (i : nat) (l : list A) : list (nat * A) :=
+  match l with [] => [] | x :: r => (i, x) :: indexed_from (S i) r end.
+Definition fanout_prop alerts start dl gs : bool :=
+  let rs := fanout gs alerts start dl in
+  forallb (fun c => log_after_success None (c_events c)) rs &&
+  eqb (fanout_failed rs) (existsb c_failed rs) &&
+  (* isolation: each chain equals the chain computed for that integration alone *)
+  beq (map c_events rs) (map (fun '(i, g) => c_events (chain i g alerts start dl)) (indexed_from 0 gs)).
+
 Definition check_case (c : case) : bool :=
   match c with
   | CTrunc ib s n obs => beq (trunc_out ib s n) obs
   | CRCheck codes code obs => beq (retrier_check codes code) obs
   | CData now g al obs => beq (template_data now g al) obs
   | CWebhook max now g al obs => beq (webhook_message max now g al) obs
+  | CRetry sr fc al start dl script oatt osent oerr oout oend =>
+    let r := retry_model sr fc al start dl script oatt in
+    beq (r_attempts r) oatt && beq (r_err r) oerr && beq (r_out r) oout && (r_end r =? oend) &&
+    match oatt with [] => true | _ => beq (r_sent r) osent end
+  | CFanout al start dl gs oevs ofailed ologged => beq (fanout_model al start dl gs) (oevs, ofailed, ologged)
   end.
 
 Definition prop_case (c : case) : bool :=
@@ -98,6 +170,9 @@ Definition prop_case (c : case) : bool :=
     let '(d, t) := webhook_message max now g al in
     let listed := if max =? 0 then al else take (Z.to_nat max) al in
     data_prop now listed d && (t =? Z.of_nat (length al) - Z.of_nat (length listed))
+  | CRetry sr fc al start dl script oatt _ _ _ _ =>
+    retry_prop sr fc al start dl (retry_model sr fc al start dl script oatt)
+  | CFanout al start dl gs _ _ _ => fanout_prop al start dl gs
   end.
 
 Definition show_case (c : case) : shown :=
@@ -106,4 +181,7 @@ Definition show_case (c : case) : shown :=
   | CRCheck codes code _ => SRCheck (retrier_check codes code)
   | CData now g al _ => SData (template_data now g al)
   | CWebhook max now g al _ => SWebhook (webhook_message max now g al)
+  | CRetry sr fc al start dl script oatt _ _ _ _ => SRetry (retry_model sr fc al start dl script oatt)
+  | CFanout al start dl gs _ _ _ =>
+    let '(e, f, l) := fanout_model al start dl gs in SFanout e f l
   end.
